@@ -250,7 +250,13 @@ func (g *cg) isBusM(e ast.Expr) bool {
 func exprString(e ast.Expr) string { return types.ExprString(e) }
 
 // tableRef recognises instructions[op].f / cpu.instructions[op].f and the four cycle tables
-func (g *cg) tableRef(e ast.Expr, ind string) (string, kind, bool) {
+func (g *cg) tableRef(e ast.Expr, want kind, ind string) (string, kind, bool) {
+	// the table columns are Go bytes kept as Nat (< 256) in Gen/CpuTables.lean: a column read is `BitVec.ofNat 8 n`, and under a
+	// widening conversion `uint16(column)` it is `BitVec.ofNat 16 n` (the same number)
+	w, wk := "8", kU8
+	if want == kU16 {
+		w, wk = "16", kU16
+	}
 	if sel, ok := e.(*ast.SelectorExpr); ok {
 		if ix, ok := sel.X.(*ast.IndexExpr); ok && strings.HasSuffix(exprString(ix.X), "instructions") {
 			op, k := g.expr(ix.Index, kU8, ind)
@@ -261,9 +267,9 @@ func (g *cg) tableRef(e ast.Expr, ind string) (string, kind, bool) {
 			case "mode":
 				return fmt.Sprintf("(sem %s).mode", op), kMode, true
 			case "size":
-				return fmt.Sprintf("(BitVec.ofNat 8 (sem %s).size)", op), kU8, true
+				return fmt.Sprintf("(BitVec.ofNat %s (sem %s).size)", w, op), wk, true
 			case "cycles":
-				return fmt.Sprintf("(BitVec.ofNat 8 (sem %s).cycles)", op), kU8, true
+				return fmt.Sprintf("(BitVec.ofNat %s (sem %s).cycles)", w, op), wk, true
 			}
 			g.die(e, "unsupported opcode-table column %s", sel.Sel.Name)
 		}
@@ -274,7 +280,7 @@ func (g *cg) tableRef(e ast.Expr, ind string) (string, kind, bool) {
 		col := map[string]string{"decCycles_flagM": "decM", "decCycles_flagX": "decX", "incCycles_regDL_not00": "incDL", "incCycles_PageCross": "incPage"}[n]
 		if col != "" {
 			op, _ := g.expr(ix.Index, kU8, ind)
-			return fmt.Sprintf("(BitVec.ofNat 8 (adj %s).%s)", op, col), kU8, true
+			return fmt.Sprintf("(BitVec.ofNat %s (adj %s).%s)", w, op, col), wk, true
 		}
 	}
 	return "", kNone, false
@@ -367,12 +373,12 @@ func (g *cg) expr(e ast.Expr, want kind, ind string) (string, kind) {
 			}
 			return "busM", kU8
 		}
-		if s, k, ok := g.tableRef(e, ind); ok {
+		if s, k, ok := g.tableRef(e, want, ind); ok {
 			return s, k
 		}
 		g.die(e, "unsupported selector %s", exprString(e))
 	case *ast.IndexExpr:
-		if s, k, ok := g.tableRef(e, ind); ok {
+		if s, k, ok := g.tableRef(e, want, ind); ok {
 			return s, k
 		}
 		g.die(e, "unsupported index expression %s", exprString(e))
@@ -924,6 +930,9 @@ func (g *cg) stmt(s ast.Stmt, ind string) {
 			return
 		}
 		c := g.cond(x.Cond, ind)
+		if g.pureIf(x, c, ind) {
+			return
+		}
 		g.emit(ind, "if %s then", c)
 		fr := g.fresh
 		n0 := len(g.lines)
@@ -1049,6 +1058,243 @@ func (g *cg) stmt(s ast.Stmt, ind string) {
 	default:
 		g.die(s, "unsupported statement %T", s)
 	}
+}
+
+// pureLocalAssigns: the statements are plain assignments `v = e` to distinct translated locals, no right-hand side has a call or
+// mentions a variable assigned earlier in the same list
+func (g *cg) pureLocalAssigns(list []ast.Stmt) ([]*ast.Ident, []ast.Expr, bool) {
+	var ids []*ast.Ident
+	var rhs []ast.Expr
+	seen := map[types.Object]bool{}
+	for _, st := range list {
+		a, ok := st.(*ast.AssignStmt)
+		if !ok || a.Tok != token.ASSIGN || len(a.Lhs) != 1 || len(a.Rhs) != 1 {
+			return nil, nil, false
+		}
+		id, ok := a.Lhs[0].(*ast.Ident)
+		if !ok {
+			return nil, nil, false
+		}
+		o := g.p.info.Uses[id]
+		if _, isLocal := g.kinds[o]; !isLocal || seen[o] {
+			return nil, nil, false
+		}
+		bad := false
+		ast.Inspect(a.Rhs[0], func(n ast.Node) bool {
+			switch y := n.(type) {
+			case *ast.CallExpr:
+				if tv, ok := g.p.info.Types[y.Fun]; !(ok && tv.IsType()) {
+					if fn, _, _ := g.callee(y); fn == nil || !fn.pure {
+						bad = true
+					}
+				}
+			case *ast.Ident:
+				if seen[g.p.info.Uses[y]] {
+					bad = true
+				}
+			}
+			return !bad
+		})
+		if bad {
+			return nil, nil, false
+		}
+		seen[o] = true
+		ids = append(ids, id)
+		rhs = append(rhs, a.Rhs[0])
+	}
+	return ids, rhs, len(ids) > 0
+}
+
+// callFree: no call except conversions and pure functions
+func (g *cg) callFree(e ast.Expr) bool {
+	ok := true
+	ast.Inspect(e, func(n ast.Node) bool {
+		if y, isCall := n.(*ast.CallExpr); isCall {
+			if tv, has := g.p.info.Types[y.Fun]; !(has && tv.IsType()) {
+				if fn, _, _ := g.callee(y); fn == nil || !fn.pure {
+					ok = false
+				}
+			}
+		}
+		return ok
+	})
+	return ok
+}
+
+// pureBlock: a statement list that only updates one local variable — assignments `v = e` (call-free) and `if c { … }` without else
+// whose body is again such a list — as a Lean expression for the final value of v: `(let v := e1; let v := if c then (…) else v; v)`
+func (g *cg) pureBlock(list []ast.Stmt, obj *types.Object, ind string, dry bool) (string, bool) {
+	var sb strings.Builder
+	sb.WriteString("(")
+	for _, st := range list {
+		switch a := st.(type) {
+		case *ast.AssignStmt:
+			if a.Tok != token.ASSIGN || len(a.Lhs) != 1 || len(a.Rhs) != 1 {
+				return "", false
+			}
+			id, ok := a.Lhs[0].(*ast.Ident)
+			if !ok {
+				return "", false
+			}
+			o := g.p.info.Uses[id]
+			if _, isLocal := g.kinds[o]; !isLocal || (*obj != nil && o != *obj) || !g.callFree(a.Rhs[0]) {
+				return "", false
+			}
+			*obj = o
+			if !dry {
+				k := g.kinds[o]
+				v, kv := g.expr(a.Rhs[0], k, ind)
+				if kv != k {
+					g.die(a, "local %s : %s assigned %s", id.Name, k.lean(), kv.lean())
+				}
+				fmt.Fprintf(&sb, "let %s := %s; ", g.localName(o), v)
+			}
+		case *ast.IfStmt:
+			if a.Else != nil || a.Init != nil || !g.callFree(a.Cond) {
+				return "", false
+			}
+			inner, ok := g.pureBlock(a.Body.List, obj, ind, dry)
+			if !ok {
+				return "", false
+			}
+			if !dry {
+				n := g.localName(*obj)
+				fmt.Fprintf(&sb, "let %s := (if %s then %s else %s); ", n, g.cond(a.Cond, ind), inner, n)
+			}
+		default:
+			return "", false
+		}
+	}
+	if *obj == nil {
+		return "", false
+	}
+	if !dry {
+		sb.WriteString(g.localName(*obj) + ")")
+	}
+	return sb.String(), true
+}
+
+// pureIfSeq: `if c { … }` (no else) whose body only updates one local (see pureBlock) becomes `v := if c then (…) else v`
+func (g *cg) pureIfSeq(x *ast.IfStmt, c string, ind string) bool {
+	if x.Else != nil {
+		return false
+	}
+	var obj types.Object
+	if _, ok := g.pureBlock(x.Body.List, &obj, ind, true); !ok {
+		return false
+	}
+	if len(x.Body.List) == 1 {
+		if _, isAssign := x.Body.List[0].(*ast.AssignStmt); isAssign {
+			return false // the plain single-assignment form is handled by pureIf
+		}
+	}
+	obj2 := obj
+	body, _ := g.pureBlock(x.Body.List, &obj2, ind, false)
+	n := g.localName(obj)
+	g.emit(ind, "%s := (if %s then %s else %s)", n, c, body, n)
+	return true
+}
+
+// pureIfField: `if c { cpu.F = e1 } else { cpu.F = e2 }` (one call-free assignment to the same register field on each side) becomes
+// one assignment of a conditional expression
+func (g *cg) pureIfField(x *ast.IfStmt, c string, ind string) bool {
+	if x.Else == nil || len(x.Body.List) != 1 {
+		return false
+	}
+	eb, ok := x.Else.(*ast.BlockStmt)
+	if !ok || len(eb.List) != 1 {
+		return false
+	}
+	a1, ok1 := x.Body.List[0].(*ast.AssignStmt)
+	a2, ok2 := eb.List[0].(*ast.AssignStmt)
+	if !ok1 || !ok2 || a1.Tok != token.ASSIGN || a2.Tok != token.ASSIGN || len(a1.Lhs) != 1 || len(a2.Lhs) != 1 {
+		return false
+	}
+	f1, okf1 := g.cpuField(a1.Lhs[0])
+	f2, okf2 := g.cpuField(a2.Lhs[0])
+	if !okf1 || !okf2 || f1 != f2 || !g.callFree(a1.Rhs[0]) || !g.callFree(a2.Rhs[0]) {
+		return false
+	}
+	if mentions(x.Cond, f1) { // the condition is evaluated before the assignment either way, but keep the simple case simple
+		return false
+	}
+	g.assignFields(ind, []string{f1}, []func() string{func() string {
+		var v1, v2 string
+		if flagFields[f1] {
+			v1, v2 = g.flagRhs(a1.Rhs[0], f1, ind), g.flagRhs(a2.Rhs[0], f1, ind)
+		} else {
+			fk, ok := regFields[f1]
+			if !ok {
+				g.die(x, "assignment to CPU field %s outside the modelled register record", f1)
+			}
+			var k1, k2 kind
+			v1, k1 = g.expr(a1.Rhs[0], fk, ind)
+			v2, k2 = g.expr(a2.Rhs[0], fk, ind)
+			if k1 != fk || k2 != fk {
+				g.die(x, "field %s : %s assigned %s / %s", f1, fk.lean(), k1.lean(), k2.lean())
+			}
+		}
+		return fmt.Sprintf("(if %s then %s else %s)", c, v1, v2)
+	}})
+	return true
+}
+
+// pureIf: `if c { v = e }` / `if c { v = e; w = f } else { v = e'; w = f' }` over locals only becomes `v := if c then e else v`
+// (conditional expressions instead of a conditional statement: the value is the same, the generated term stays linear in size)
+func (g *cg) pureIf(x *ast.IfStmt, c string, ind string) bool {
+	if g.pureIfSeq(x, c, ind) || g.pureIfField(x, c, ind) {
+		return true
+	}
+	ids, rhs, ok := g.pureLocalAssigns(x.Body.List)
+	if !ok {
+		return false
+	}
+	var eids []*ast.Ident
+	var erhs []ast.Expr
+	if x.Else != nil {
+		eb, isBlock := x.Else.(*ast.BlockStmt)
+		if !isBlock {
+			return false
+		}
+		eids, erhs, ok = g.pureLocalAssigns(eb.List)
+		if !ok || len(eids) != len(ids) {
+			return false
+		}
+		for i := range ids {
+			if g.p.info.Uses[ids[i]] != g.p.info.Uses[eids[i]] {
+				return false
+			}
+		}
+	}
+	// no right-hand side may mention a variable assigned in either branch before it (checked per branch above); across the two
+	// branches the same variables are assigned in the same order, so evaluating all right-hand sides first is the Go semantics
+	var news []string
+	for i, id := range ids {
+		o := g.p.info.Uses[id]
+		k := g.kinds[o]
+		a, ka := g.expr(rhs[i], k, ind)
+		if ka != k {
+			g.die(id, "local %s : %s assigned %s", id.Name, k.lean(), ka.lean())
+		}
+		b := g.localName(o)
+		if erhs != nil {
+			var kb kind
+			b, kb = g.expr(erhs[i], k, ind)
+			if kb != k {
+				g.die(id, "local %s : %s assigned %s", id.Name, k.lean(), kb.lean())
+			}
+		}
+		news = append(news, fmt.Sprintf("(if %s then %s else %s)", c, a, b))
+	}
+	if len(ids) == 1 {
+		g.emit(ind, "%s := %s", g.localName(g.p.info.Uses[ids[0]]), news[0])
+		return true
+	}
+	// several variables: the right-hand sides were checked not to depend on one another, assign in order
+	for i, id := range ids {
+		g.emit(ind, "%s := %s", g.localName(g.p.info.Uses[id]), news[i])
+	}
+	return true
 }
 
 func (g *cg) assign(x *ast.AssignStmt, ind string) {
